@@ -160,3 +160,31 @@ def main_gens_at_one_bus():
 
 if __name__ == "__main__":
     main()
+
+
+def main_kappa_b():
+    """peak current with kappa method B (meshed network detection on a graph of the ppc): independent of net.sn_mva"""
+    import pandapower.shortcircuit as sc
+    fails = []
+    res = {}
+    for sn in (1., 10., 100.):
+        net = pp.create_empty_network(sn_mva=sn)
+        b1 = pp.create_bus(net, 110.); b2 = pp.create_bus(net, 20.); b3 = pp.create_bus(net, 20.)
+        pp.create_ext_grid(net, b1, s_sc_max_mva=1000., s_sc_min_mva=800., rx_max=0.1, rx_min=0.2)
+        pp.create_transformer_from_parameters(net, b1, b2, sn_mva=40., vn_hv_kv=110., vn_lv_kv=20., vkr_percent=0.3, vk_percent=12., pfe_kw=20.,
+                                              i0_percent=0.05)
+        for _ in range(2):
+            pp.create_line_from_parameters(net, b2, b3, length_km=4., r_ohm_per_km=0.2, x_ohm_per_km=0.35, c_nf_per_km=10., max_i_ka=0.3,
+                                           endtemp_degree=80.)
+        sc.calc_sc(net, fault="3ph", case="max", ip=True, kappa_method="B", topology="auto")
+        res[sn] = (float(net.res_bus_sc.ikss_ka.at[b3]), float(net.res_bus_sc.ip_ka.at[b3]))
+    ref = res[1.]
+    for sn, (ik, ip) in res.items():
+        if not (np.isclose(ik, ref[0], rtol=1e-9) and np.isclose(ip, ref[1], rtol=1e-9)):
+            fails.append(f"calc_sc(ip=True, kappa_method='B', topology='auto'), fault behind two parallel lines: net.sn_mva = 1: ikss = {ref[0]:.5f} kA, "
+                         f"ip = {ref[1]:.5f} kA; net.sn_mva = {sn}: ikss = {ik:.5f} kA, ip = {ip:.5f} kA")
+    for f in fails:
+        print("REPRODUCED:", f)
+    if not fails:
+        print("not reproduced: the peak current with kappa method B does not depend on net.sn_mva")
+    sys.exit(1 if fails else 0)
